@@ -60,6 +60,12 @@ CHECKS["C10"] = dict(
     note="Liveness is decided per executed call class, not for all reals; sizes concretised per class. The check wrapper treats a harness process that ends without evidence as a machinery failure, never as a pass.",
     ref="5 C10")
 
+CHECKS["C02"] = dict(
+    technique="TLA+ spec SphereRoutes.tla (rewriting system on layered-sphere descriptions with normal form; catalogue of solver classes and applicable relations) model-checked by TLC; every description/edge replayed on real objects (state merging); measured relation defects validated by SphereRoutesTrace.tla",
+    text="TLC enumerates every layered-sphere description with <= 3-4 layers over three index classes (incl. the medium's) and radii 1..4-5 and every rewriting step (split a layer, merge equal neighbours, add/drop an outer medium layer), proving on the model that each step preserves the normal form and that thickness/radius descriptions are inverse (TLC found and I fixed a normal-form bug for all-medium spheres). Every description is computed with the real Lorenz-Mie code (fields near/far, scattering matrix, cross sections) and compared with its normal form and with the LayeredSphere description. The solver catalogue (5 index x 7 size x 3 position x 4 polarisation x 4 option classes) is compared between Mie, one-sphere Multisphere (default and tightened tolerances), the pure-Python series used by the lens theories and an independent textbook series, through HoloPy's generic amplitude-to-field pipeline; all defects go through a TLC trace spec with per-relation tolerances.",
+    note="Continuous parameters sampled per class (VERIF_SEED). Tolerances in spec/Tolerances.tla with measured calibration; detector distances kept below kr ~ 2.5e4 (documented limit of the full radial dependence).",
+    ref="5 C02")
+
 NOT_APPLICABLE = []
 
 
